@@ -36,6 +36,16 @@ PadPosSet(run, nb, chip, ro) ==
 WirePos(run, nb, ch) == CHOOSE w \in WirePosSet(run, nb, ch) : TRUE
 PadPos(run, nb, chip, ro) == CHOOSE p \in PadPosSet(run, nb, chip, ro) : TRUE
 
+\* structural facts every recorded map must have (C08 asserts them in full; here they guard the requirement
+\* against a configuration trace taken from a broken map): where a run has a map at all, no two (board,
+\* channel) lead to the same wire and no two (board, chip, channel) to the same pad
+MapInjective(m) ==
+  LET wvals == {<<b, c>> \in (DOMAIN m.wires) \X (1..32) : m.wires[b][c] >= 0}
+      pvals == {<<b, k, ro>> \in (DOMAIN m.pads) \X (1..4) \X (1..79) : m.pads[b][k][ro] # <<>>}
+  IN /\ Cardinality({m.wires[x[1]][x[2]] : x \in wvals}) = Cardinality(wvals)
+     /\ Cardinality({m.pads[x[1]][x[2]][x[3]] : x \in pvals}) = Cardinality(pvals)
+MapsInjective == \A m \in SeqRange(Cfg.maps) : MapInjective(m)
+
 Name(b) == b[1]
 Data(b) == b[2]
 Idx(banks, P(_)) == {i \in 1..Len(banks) : P(banks[i])}
